@@ -70,6 +70,18 @@ def gen_plan(rng, tier, run):
         # every listing order
         for nm in rng.choice([["zz_gone1", "zz_gone2"], ["00sock_a", "00sock_b"], ["zz_gone1", "zz_sock"]]):
             tree.append({"path": "D/" + nm, "special": "socket" if "sock" in nm else "dangling"})
+    sep_ids = False
+    if rng.random() < 0.1:
+        # files whose location (relative to the PEL directory) is itself an 8-character string
+        tree.append({"path": "X.PEL", "raw_hex": b"outside the PEL directory".hex()})
+        tree.append({"path": "D/SUB", "dir": True})
+        tree.append({"path": "D/SUB/FILE", "raw_hex": b"below the PEL directory".hex()})
+        sep_ids = True
+    if rng.random() < 0.06 and files:
+        # a PEL whose name is close to NAME_MAX: "<name>.<eid>.json" cannot exist
+        t0 = tree[0]
+        if "recipe" in t0:
+            t0["path"] = ("D/" + t0["path"][2:] + "_" + "y" * 255)[:2 + rng.choice([255, 250, 243])]
     tree.append({"path": "OUT", "dir": True})
     tree.append({"path": "E", "dir": True})                       # a second, unrelated PEL directory
     for f in common.gen_store(rng, rng.randint(0, 2), style="bmc", max_sections=2):
@@ -112,6 +124,10 @@ def gen_plan(rng, tier, run):
                              "errno": rng.choice(["ENOSPC", "EIO"]), "keep": rng.choice([0, 10, 300])}]
             op["bufsize"] = rng.choice([0, 64, None])
         ops.append(op)
+    if sep_ids:
+        for o in ops:
+            if o["mode"] in ("-d", "-i") and rng.random() < 0.7:
+                o["arg"] = rng.choice(["../x.pel", "sub/file", "../X.PEL", "SUB/FILE"])
     # the PEL directory's own name may contain an entry id (e.g. cases/<EID>/)
     dname = "D"
     c = rng.random()
